@@ -119,7 +119,26 @@ func RunCheck(spec *PropSpec, tier string, seed int64, nworkers int) int {
 	var solverTime time.Duration
 	knownPrinted := map[string]bool{}
 	incomplete := false
+	// wall-clock budget of one check (VERIF_BUDGET_MIN overrides): jobs that would start after it are not run and are
+	// reported as reduced bound; the vacuity twins are always run. A job that is running is cut by its own timeout.
+	budget := 45 * time.Minute
+	if tier != "quick" {
+		budget = 150 * time.Minute
+	}
+	if v := os.Getenv("VERIF_BUDGET_MIN"); v != "" {
+		budget = time.Duration(atoi(v)) * time.Minute
+	}
+	skipped := []string{}
 	for _, job := range jobs {
+		if time.Since(t0) > budget && !job.ExpectFail {
+			incomplete = true
+			skipped = append(skipped, fmt.Sprintf("%s n=%d", job.Fn, job.N))
+			fmt.Printf("BOUND-SKIPPED %s n=%d: the time budget of this check (%v) is used up; this bound is not covered by this run\n", job.Fn, job.N, budget)
+			continue
+		}
+		if left := budget - time.Since(t0); job.Timeout == 0 && left < 30*time.Minute && !job.ExpectFail {
+			job.Timeout = left + time.Minute
+		}
 		l, err := LoadPkg(job.Pkg)
 		if err != nil {
 			// a harness on unexported names that no longer type-checks: anchor missing
@@ -348,6 +367,7 @@ func RunCheck(spec *PropSpec, tier string, seed int64, nworkers int) int {
 			"stubs":                         nz(spec.Stubs),
 			"known_findings_seen":           nz(kf),
 			"engine_problems":               nz(engineProblems),
+			"bounds_not_run_time_budget":    nz(skipped),
 			"explanation":                   "bounded symbolic execution of the go/ssa form of the real functions (rebuilt from /repo's working tree); states = feasible paths explored, transitions = branch outcomes decided by value-set evaluation or SMT",
 		},
 		"assumptions": nz(spec.Assumptions),
